@@ -22,6 +22,10 @@ fn main() {
                     .map(|x| (x["op"].as_str().unwrap().to_string(), x["n"].as_u64().unwrap() as usize)).collect();
                 return rdata::observe_txt(&ops);
             }
+            Some("optbuild") => {
+                let pushes: Vec<serde_json::Value> = input["pushes"].as_array().cloned().unwrap_or_default();
+                return rdata::optbuild::observe_optbuild(&pushes);
+            }
             Some("alpn") => {
                 let ids: Vec<Vec<u8>> = input["ids"].as_array().unwrap().iter().map(bytes_of).collect();
                 return rdata::observe_alpn(&ids);
